@@ -42,7 +42,7 @@ def sha(b):
 def project(variant, rng):
     files = {}
     for i, name in enumerate(["test_one.py", "test_two.py"]):
-        L = ["from inline_snapshot import snapshot, outsource, external", "from helper_types import Weird", "", ""]
+        L = ["# tests f\u00fcr snapshots \u2013 \u2713 (non-ASCII text outside the snapshots)", "from inline_snapshot import snapshot, outsource, external", "from helper_types import Weird", "", ""]
         L += [f"def test_create_{i}():", f"    assert {i} + 5 == snapshot()", "", ""]
         L += [f"def test_fix_{i}():", f"    assert [1, {i}, 3] == snapshot([1, 9, 3, 4])", "", ""]
         L += [f"def test_trim_{i}():", f"    assert {i} <= snapshot(99)", "", ""]
@@ -60,6 +60,12 @@ def project(variant, rng):
     if variant == "cmd_cat":
         files["pyproject.toml"] = '[tool.inline-snapshot]\nformat-command="cat"\n'
     return files
+
+
+ENVIRONMENTS = [
+    ("ascii-locale", {"LC_ALL": "C", "LANG": "C", "PYTHONUTF8": "0", "PYTHONCOERCECLOCALE": "0", "PYTHONIOENCODING": "utf-8"}),
+    ("read-only-tempdir", {"TMPDIR": "/nonexistent-tmp-dir"}),
+]
 
 
 def references(text):
@@ -171,6 +177,9 @@ def run_shard(args):
             kinds = ("raise", "kill") if tier == "thorough" or n.startswith(("open_w", "rename", "SourceFile.rewrite", "ChangeRecorder.fix_all", "DiscStorage.persist", "Path.rename")) else (("raise", "kill")[(pi + seed_parity) % 2],)
             for kind in kinds:
                 jobs.append((vname, fargs, files, expected_new, k, n, cls, kind))
+        # hostile process environments (no injected fault: whatever goes wrong must not damage a file)
+        for ename, eenv in ENVIRONMENTS:
+            jobs.append((vname, fargs, files, expected_new, None, "environment:" + ename, "env", ("env", eenv, None)))
         # formatter faults
         if vname != "cmd_cat":
             for bk in ("raise", "garbage", "empty"):
@@ -187,6 +196,16 @@ def run_shard(args):
         jobs = [j for i, j in enumerate(jobs) if i % args.nshards == args.shard]
     for vname, fargs, files, expected_new, k, n, cls, kind in jobs:
         base = {"variant": vname, "boundary": n, "k": k, "class": cls, "fault": kind if isinstance(kind, str) else list(kind[:2])}
+        if not isinstance(kind, str) and kind[0] == "env":
+            proj = session.Project(files, with_vp=False)
+            r = session.run_session(proj, fargs, env=kind[1])
+            proj.close()
+            C["sessions"] += 1
+            C["hostile_environment_sessions"] = C.get("hostile_environment_sessions", 0) + 1
+            out["evaluations"] += 1
+            out["signatures"].add(f"{n}/{vname}")
+            check_disk(r, files, expected_new, base, out, {"files": files, "args": fargs, "env": kind[1]}, C, formatter_fault=False)
+            continue
         fmt_fault = not isinstance(kind, str)
         f2 = dict(files)
         env = None
